@@ -29,6 +29,9 @@ type Prog struct {
 	normPost     bool
 	ivFrames     []*ivFrame // interval analysis: open loops (break/continue environments)
 	ivDepth      int
+	ivCallDepth  int
+	ivRets       []*ivRetFrame
+	ivZeroCoef   bool // interval analysis: assume decompose returns a zero coefficient
 	ivParamCache map[*ast.FuncDecl]ienv
 	asMethod     map[*ast.FuncDecl]bool // functions standing in for a method of their first parameter
 	Roles        map[string]string      // rule anchor name -> actual declaration name (renamed unexported helpers)
